@@ -3950,7 +3950,9 @@ class LoopNode(ActionSinkNode, ActionSourceNode):
         # Reroute all transitions with a BreakAction in them that corresponds to our break action to go to us immediately as an optimization.
         for transition in sub_dfa.transitions_that_do(self.break_action):
             transition.to(self.end_state)
-            transition.actions.remove(self.break_action)
+            # a break ends the execution of the transition's actions (as the generated code for a
+            # non-rerouted BreakAction does): whatever was chained after it must not run
+            del transition.actions[transition.actions.index(self.break_action):]
             transition.actions.extend(self.after_break_actions)
             should_try_to_append = True
 
